@@ -18,6 +18,11 @@ fn base_cfg(d: &Draw, dir: &std::path::Path) -> ServerCfg {
     let mut srv = ServerCfg::new(dir);
     srv.single_port = d.chance("swarm.single_port", 1, 2);
     srv.v6 = d.chance("swarm.ipv6", 1, 8);
+    // flags that should not matter for the property at hand are varied all the same
+    srv.keep_on_error = d.chance("swarm.flag.keep_on_error", 1, 6);
+    if d.chance("swarm.flag.duplicate_packets", 1, 8) {
+        srv.dup = Some("1".into());
+    }
     srv
 }
 
@@ -245,10 +250,10 @@ pub fn options(_tier: Tier, w: &Arc<World>) -> Scn {
     let dir = sandbox.dir("srv");
     let mut srv = base_cfg(&d, &dir);
     let write = d.chance("swarm.kind.upload", 1, 2);
-    let dupn: u64 = if d.chance("swarm.dup", 1, 8) { 1 } else { 0 };
-    if dupn > 0 {
+    if d.chance("swarm.dup", 1, 8) {
         srv.dup = Some("1".into());
     }
+    let dupn: u64 = if srv.dup.is_some() { 1 } else { 0 };
     let len = d.pick("swarm.len", &[6000usize, 0, 511, 512, 513, 2048, 40_000, 200_000]);
     let blk = ["512", "8", "7", "9", "0", "1", "1428", "65464", "65465", "65463", "1024", "100000", "4294967296", "1099511627776", "18446744073709551615", "18446744073709551616", "+16", "abc", "", "0512", "-1"];
     let tmo = ["5", "1", "0", "2", "255", "256", "3", "abc", "1000"];
@@ -466,6 +471,18 @@ pub fn hostile(_tier: Tier, w: &Arc<World>) -> Scn {
         w.start_peer_at(p, 20 * MS);
         probes.push((p, big.clone()));
     }
+    let mut upload_victim = None;
+    if !srv.read_only && d.chance("swarm.concurrent_upload", 1, 3) {
+        // a legitimate upload with a large block size in flight (single-port: it shares the listener's buffer)
+        let up = Arc::new(content(20_000, 8));
+        let mut xc = XferCfg::new(srv.addr(), "victim-up.bin");
+        xc.opts = vec![("blksize".into(), d.pick("swarm.concurrent.up_blksize", &["1024", "4096", "1428"]).to_string())];
+        xc.resend_request = false;
+        xc.think_ns = 0;
+        let (p, _) = w.add_peer(Box::new(Writer::new(xc, up.to_vec())), srv.v6, 0);
+        w.start_peer_at(p, 15 * MS);
+        upload_victim = Some((dir.join("victim-up.bin"), up));
+    }
     // canonical probes after prefixes of the hostile sequence and after all of it
     let nprobe = 1 + d.range("swarm.probes", 2) as usize;
     for k in 0..nprobe {
@@ -476,7 +493,9 @@ pub fn hostile(_tier: Tier, w: &Arc<World>) -> Scn {
         probes.push((p, probe_data.clone()));
     }
     let desc = format!("hostile {} sources={nsrc} datagrams={ndg} probes={} e.g. {:?}", srv.describe(), probes.len(), sample);
-    w.add_monitor(Box::new(LiveMon::new(probes)));
+    let mut lm = LiveMon::new(probes);
+    lm.upload_victim = upload_victim;
+    w.add_monitor(Box::new(lm));
     boot_server(w, &srv).expect("server config");
     Scn { sandbox, desc, step_cap: 400_000, time_cap: 100_000_000 * SEC, faultfree: false }
 }
